@@ -3,6 +3,8 @@
 // flag all three on every run.
 package sharedcache
 
+import "sync"
+
 type session struct {
 	key  string
 	from int32
@@ -60,4 +62,43 @@ func (t *T) GetPure(key string) int32 {
 	buf := make([]byte, 0, 8)
 	buf = append(buf, t.in.Bytes...)
 	return qr.from + int32(len(buf))
+}
+
+var bufPool = sync.Pool{New: func() interface{} { return make([]byte, 0, 64) }}
+
+// IterPoolEarly hands its key buffer back to the pool in the same call that
+// returns it: the next iterator overwrites a key the caller still reads.
+func (t *T) IterPoolEarly() func() []byte {
+	buf := bufPool.Get().([]byte)[:0]
+	i := 0
+	return func() []byte {
+		if i >= len(t.in.Bytes) {
+			return nil
+		}
+		buf = append(buf[:0], t.in.Bytes[i])
+		i++
+		if i == len(t.in.Bytes) {
+			bufPool.Put(buf)
+		}
+		return buf
+	}
+}
+
+// IterPoolProper releases the buffer only when it reports exhaustion.
+func (t *T) IterPoolProper() func() []byte {
+	buf := bufPool.Get().([]byte)[:0]
+	i := 0
+	return func() []byte {
+		if i >= len(t.in.Bytes) {
+			if buf != nil {
+				b := buf
+				buf = nil
+				bufPool.Put(b)
+			}
+			return nil
+		}
+		buf = append(buf[:0], t.in.Bytes[i])
+		i++
+		return buf
+	}
 }
